@@ -32,6 +32,19 @@ func init() {
 
 // TestKey returns a freshly parsed copy of fixed test key i (keys are long-term
 // "durable" state: they survive crash/restart of a party).
+// SharedKey returns ONE key object per index for the whole process: the way an
+// application holds an account's key and hands the same object to all of the
+// account's conversations (C20). Created before any goroutine is started.
+var sharedKeys = func() []*otr3.DSAPrivateKey { return make([]*otr3.DSAPrivateKey, 16) }()
+
+func SharedKey(i int) *otr3.DSAPrivateKey {
+	i %= len(sharedKeys)
+	if sharedKeys[i] == nil {
+		sharedKeys[i] = TestKey(i)
+	}
+	return sharedKeys[i]
+}
+
 func TestKey(i int) *otr3.DSAPrivateKey {
 	k := &otr3.DSAPrivateKey{}
 	_, ok := k.Parse(testKeyBytes[i%len(testKeyBytes)])
@@ -59,9 +72,10 @@ type PartyCfg struct {
 	Tag        uint32 `json:"tag"`     // 0: draw from Rand at creation
 	LazyTag    bool   `json:"lazytag"` // do not initialise the tag at creation
 	NoKeys     bool   `json:"nokeys"`
-	Peer       int    `json:"peer"`              // index of the party its output is sent to
-	Ref        bool   `json:"ref,omitempty"`     // this party is the reference implementation (refotr.Peer), not a real Conversation
-	RefFrag    int    `json:"reffrag,omitempty"` // payload bytes per fragment for a reference party (0: no fragmentation)
+	SharedKey  bool   `json:"sharedkey,omitempty"` // use the process-wide key object of this index (one account, many conversations)
+	Peer       int    `json:"peer"`                // index of the party its output is sent to
+	Ref        bool   `json:"ref,omitempty"`       // this party is the reference implementation (refotr.Peer), not a real Conversation
+	RefFrag    int    `json:"reffrag,omitempty"`   // payload bytes per fragment for a reference party (0: no fragmentation)
 }
 
 type Event struct {
